@@ -166,7 +166,8 @@ PROPS = {
         "parts": [{"engine": "front", "test": "TestProp_C18_Reload", "quick": 4000, "thorough": 60000, "shards": {"quick": 8}},
                   {"engine": "front", "test": "TestProp_C18_FileCrash", "quick": 150, "thorough": 3000},
                   {"engine": "front", "test": "TestProp_C18_MgmtRollback", "quick": 60, "thorough": 600},
-                  {"engine": "front", "test": "TestProp_C18_GlobalReload", "quick": 600, "thorough": 40000, "shards": {"quick": 4}}],
+                  {"engine": "front", "test": "TestProp_C18_GlobalReload", "quick": 600, "thorough": 40000, "shards": {"quick": 4}},
+                  {"engine": "front", "test": "TestProp_C18_RateReload", "quick": 600, "thorough": 40000, "shards": {"quick": 4}}],
     },
     "C01": {
         "rule": "process tier: the real `hookaido run` binary (verif build) on a SQLite file with a 2-3 target fan-out deliver route (targets on a closed "
